@@ -206,15 +206,18 @@ def main(argv=None):
         from . import altserver, runner
 
         need_alt = args.prop in ("C17", "C18", "C20")
+        need_opt = args.prop == "C17"
         if need_alt:
             main_hs = int(os.environ.get("PYTHONHASHSEED", "0") or 0)
             altserver.start(os.path.join(runner.scratch_dir(args.prop + "-alt"), "alt.sock"), (main_hs + 1) % 4294967296)
+            if need_opt:
+                altserver.start(os.path.join(runner.scratch_dir(args.prop + "-alt"), "opt.sock"), (main_hs + 2) % 4294967296, optimize=True)
         from . import install
 
         install.install()
         from . import shrink
 
-        if need_alt and not altserver.wait_ready(180):
+        if need_alt and not (altserver.wait_ready(180) and (not need_opt or altserver.wait_ready(180, "opt"))):
             log("HARNESS-ERROR alternate-interpreter server did not start")
             altserver.stop()
             return 2
@@ -430,7 +433,7 @@ def do_search(args, cfg, base, t0):
                        "hashseed": int(os.environ.get("PYTHONHASHSEED", "0") or 0),
                        "shrink_execs": execs, "shrink_steps": steps, "plan": small}, f, indent=1, sort_keys=True)
         rc = subprocess.run([sys.executable, os.path.join(VERIF, "check"), prop, "--replay", path], capture_output=True, text=True,
-                            env={k_: v_ for k_, v_ in os.environ.items() if k_ != "VERIF_ALT_SOCK"}, timeout=600)
+                            env={k_: v_ for k_, v_ in os.environ.items() if k_ not in ("VERIF_ALT_SOCK", "VERIF_OPT_SOCK")}, timeout=600)
         if rc.returncode != 1:
             log(f"HARNESS-ERROR replay of {path} in a fresh interpreter returned {rc.returncode}: {rc.stdout[-500:]} {rc.stderr[-500:]}")
             return 2
@@ -445,7 +448,7 @@ def do_search(args, cfg, base, t0):
         step = max(1, len(idxs) // max(8, len(idxs) // 50))
         sample = idxs[::step][:400]
         rc = subprocess.run([sys.executable, os.path.join(VERIF, "check"), prop, "--seed", str(args.seed), "--digests", ",".join(map(str, sample)), "--workers", "3"],
-                            capture_output=True, text=True, env={**{k_: v_ for k_, v_ in os.environ.items() if k_ != "VERIF_ALT_SOCK"}, "PYTHONHASHSEED": "4242"}, timeout=3600)
+                            capture_output=True, text=True, env={**{k_: v_ for k_, v_ in os.environ.items() if k_ not in ("VERIF_ALT_SOCK", "VERIF_OPT_SOCK")}, "PYTHONHASHSEED": "4242"}, timeout=3600)
         m = re.search(r"^DIGESTS (.*)$", rc.stdout, re.M)
         if rc.returncode != 0 or not m:
             log(f"HARNESS-ERROR determinism re-run failed: rc={rc.returncode} {rc.stdout[-300:]} {rc.stderr[-300:]}")
